@@ -14,6 +14,8 @@ package service
 //@ property C02 roots (*service).processPublish, (*service).processIncoming, (*service).processAcked, (*service).onPublish
 //@ property C12 roots (*service).publish, (*service).processIncoming, (*service).processAcked
 //@ property C09 roots (*service).processIncoming, (*service).stop, (*github.com/mdzio/go-mqtt/sessions.Session).Init, (*github.com/mdzio/go-mqtt/sessions.Session).Update
+//@ property C10 roots (*Server).getSession, (*service).stop, (*github.com/mdzio/go-mqtt/sessions.Manager).Get, (*github.com/mdzio/go-mqtt/sessions.Manager).Del, (*github.com/mdzio/go-mqtt/sessions.Session).AddTopic, (*github.com/mdzio/go-mqtt/sessions.Session).RemoveTopic
+//@ property C06 roots github.com/mdzio/go-mqtt/topics.nextTopicLevel, (*github.com/mdzio/go-mqtt/topics.Manager).Subscribe, (*github.com/mdzio/go-mqtt/topics.Manager).Unsubscribe, (*github.com/mdzio/go-mqtt/topics.Manager).Subscribers
 //@ property C19 roots (*service).processIncoming, (*service).receiver, (timeoutReader).Read
 //@ property C01 roots (*service).onPublish
 //@ property C17 roots (*service).writeMessage, (*stat).increment, (*buffer).WriteTo, (*buffer).ReadPeek, (*buffer).ReadCommit, (*buffer).ReadFrom
@@ -664,10 +666,7 @@ func vspecCovered(x int64, start int64, c int64, size int64) bool {
 //@   flag args s
 //@   ensures result2 == nil ==> len(result0) == len(result1)
 //@   modifies heap("GF.clock"), heap("GF.mlockedAt")
-//@ extern (*github.com/mdzio/go-mqtt/sessions.Manager).Del
-//@   flag args m, id
-//@   ensures[ghostdef-del] gfield(m, "ndel") == old(gfield(m, "ndel"))+1
-//@   modifies gfield(m, "ndel"), allfields(sessions.MemProvider), allmaps(map[string]*sessions.Session)
+
 
 // What teardown needs of the will invariant (sessions.vdefWill implies it): a set will flag comes with a will message.
 //@ define vdefWillShape(s)
@@ -677,11 +676,25 @@ func vspecCovered(x int64, start int64, c int64, size int64) bool {
 // exactly once iff its will flag is still set (a DISCONNECT clears it), and never by a later call.
 //@ func (*service).stop
 //@   flag noframe
-//@   requires svc.sess != nil && svc.in != nil && vdefRingB(svc.in) && !held(ifaceval(svc.in.pcond.L, *sync.Mutex)) && !held(ifaceval(svc.in.ccond.L, *sync.Mutex)) && vdefProc(svc) && vdefWillShape(svc.sess) && !held(addr(svc.sess.mu))
+//@   requires svc.sess != nil && svc.in != nil && vdefRingB(svc.in) && !held(ifaceval(svc.in.pcond.L, *sync.Mutex)) && !held(ifaceval(svc.in.ccond.L, *sync.Mutex)) && vdefProc(svc) && vdefWillShape(svc.sess) && !held(addr(svc.sess.mu)) && (svc.sessMgr != nil ==> svc.sessMgr.p != nil)
 //@   rely modifies svc.out.pseq.cursor, svc.out.pseq.gate, svc.out.cseq.cursor, svc.out.done, svc.out.pwait, elems(svc.out.buf), svc.in.pseq.cursor, svc.in.pseq.gate, svc.in.cseq.cursor, svc.in.done, svc.in.pwait, elems(svc.in.buf)
 //@   rely ensures vdefRing(svc.out) && vdefRing(svc.in) && arr(svc.outtmp) != arr(svc.out.buf)
-//@   loop 1 invariant vdefProc(svc) && heldsame() && vdefWillShape(svc.sess) && svc.sess.Cmsg.connectFlags == old(svc.sess.Cmsg.connectFlags) && svc.sess.Will == old(svc.sess.Will) && gfield(svc, "ndlv") == old(gfield(svc, "ndlv")) && !svc.client && svc.sess != nil
+//@   loop 1 invariant vdefProc(svc) && heldsame() && vdefWillShape(svc.sess) && svc.sess.Cmsg.connectFlags == old(svc.sess.Cmsg.connectFlags) && svc.sess.Will == old(svc.sess.Will) && gfield(svc, "ndlv") == old(gfield(svc, "ndlv")) && !svc.client && svc.sess != nil && svc.sessMgr == old(svc.sessMgr) && (svc.sessMgr != nil ==> svc.sessMgr.p != nil)
 //@   ensures[C09:will-once] old(svc.closed) == 0 && !old(svc.client) && message.vspecCFWill(old(svc.sess.Cmsg.connectFlags)) ==> gfield(svc, "ndlv") == old(gfield(svc, "ndlv"))+1 && gfield(svc, "lastdlv") == old(svc.sess.Will)
 //@   ensures[C09:no-will] old(svc.closed) != 0 || old(svc.client) || !message.vspecCFWill(old(svc.sess.Cmsg.connectFlags)) ==> gfield(svc, "ndlv") == old(gfield(svc, "ndlv"))
 //@   ensures[C10:clean-deleted] old(svc.closed) == 0 && message.vspecCFClean(old(svc.sess.Cmsg.connectFlags)) && old(svc.sessMgr) != nil ==> gfield(old(svc.sessMgr), "ndel") == old(gfield(svc.sessMgr, "ndel"))+1
 //@   ensures[C10:kept] old(svc.closed) != 0 || !message.vspecCFClean(old(svc.sess.Cmsg.connectFlags)) ==> svc.sessMgr == nil || gfield(svc.sessMgr, "ndel") == old(gfield(svc.sessMgr, "ndel"))
+
+
+// ---------------------------------------------------------------- sessions (C10)
+//@ extern fmt.Sprintf
+//@   pure
+//@ func (*Server).getSession
+//@   results err
+//@   requires svc != nil && svc.sess == nil && req != nil && resp != nil && svr.sessMgr != nil && svr.sessMgr.p != nil && message.vdefConnSizes(req) && len(req.mtypeflags) == 1 && len(req.dbuf) <= 268435460
+//@   atcall fmt.Sprintf assumes len(result) >= 1 && len(result) <= 64
+//@   ensures[C10:clean] err == nil && message.vspecCFClean(req.connectFlags) ==> !resp.sessionPresent && fresh(svc.sess) && (len(req.clientID) > 0 ==> gfield(string(req.clientID), "sess") == svc.sess)
+//@   ensures[C10:resume] err == nil && !message.vspecCFClean(req.connectFlags) ==> resp.sessionPresent == (old(gfield(string(req.clientID), "sess")) != 0) && (old(gfield(string(req.clientID), "sess")) != 0 ==> svc.sess == old(gfield(string(req.clientID), "sess")))
+//@   ensures[C10:empty-id-is-clean] old(len(req.clientID)) == 0 && err == nil ==> message.vspecCFClean(req.connectFlags)
+//@   ensures[C09:will] err == nil ==> svc.sess != nil && sessions.vdefWill(svc.sess)
+//@   modifies svc.sess, req.clientID, req.connectFlags, req.dirty, req.remlen, resp.sessionPresent, resp.dirty, heap("GF.sess"), allfields(sessions.Session), heap("GF.clock"), heap("GF.mlockedAt"), heap("GF.encn"), heap("GF.encarr"), heap("GF.encoff"), heap("GF.encAt")
